@@ -22,7 +22,9 @@ THEOREMS = ['C12_expand_shorthand', 'C12_interpolates_evenly_spaced',
             'C12_log_interpolates_constant_ratio',
             'C12_importance_cards_single', 'C12_importance_cards_jump_refused',
             'C12_jumped_cell_kept',
-            'C12_importance_cards_max', 'C12_importance_cards_uneven_refused',
+            'C12_importance_cards_max', 'C12_importance_cards_dedup',
+            'C12_dictionary_last_assignment',
+            'C12_importance_cards_uneven_refused',
             'C12_keywords_importance', 'C12_particle_dictionary',
             'C12_option_tokens_words', 'C12_importance_of_cell',
             'C12_importance_missing_refused', 'C12_skipped_iff_zero',
@@ -77,8 +79,6 @@ ASSUMPTIONS = [
     'no LIKE cycle (the code does not terminate); no jump (nJ) entries in IMP '
     'cards for the zero-iff theorems (the behaviour with jumps is proved '
     'separately: C12_jumped_cell_kept, C12_importance_cards_jump_refused)',
-    'IMP data cards have pairwise distinct names (C12_importance_cards_max); '
-    'a repeated name replaces the earlier card (modelled and tied)',
 ]
 HEADER = g.HEADER
 
